@@ -56,6 +56,17 @@ def h_fit_fault(B, fault="numpy-input"):
         "unknown-solver": lambda: M.single("EOF", n_modes=2, solver="exact").fit(X, "time"),
         "unknown-solver-empty": lambda: M.single("EOF", n_modes=2, solver="").fit(X, "time"),
     }
+    if fault.startswith("n_modes=numpy"):
+        # a numpy scalar is either refused or means what the builtin number means - nothing in between
+        val = {"n_modes=numpy.int64(2)": np.int64(2), "n_modes=numpy.int32(1)": np.int32(1), "n_modes=numpy.float64(2.0)": np.float64(2.0)}[fault]
+        try:
+            m = M.single("EOF", n_modes=val, solver="full").fit(X, "time")
+        except (TypeError, ValueError):
+            B.check(f"fit with '{fault}': refused", True, "")
+            return
+        got = m.data["components"].sizes["mode"]
+        B.check(f"fit with '{fault}': accepted, so it must keep exactly {int(val)} modes", isinstance(val, np.integer) and got == int(val), f"{got} modes returned")
+        return
     B.raises(f"fit with fault '{fault}' raises", calls[fault])
 
 
@@ -218,7 +229,7 @@ def configs(tier):
             cfg["options"] = {"full_rank": True}
         out.append(cfg)
 
-    for f in ("numpy-input", "list-of-numpy", "none-input", "string-input", "unknown-sample-dim", "empty-sample-dims", "all-dims-are-sample-dims", "unknown-sample-dim|center=False", "one-unknown-of-two-sample-dims", "one-unknown-of-two-sample-dims|center=False", "one-unknown-of-two-sample-dims|list|center=False", "empty-sample-dims|center=False", "all-dims-are-sample-dims|center=False", "numpy-weights", "n_modes>rank", "n_modes=0", "n_modes=-1", "n_modes=1.5", "n_modes='a'", "n_modes=None", "unknown-solver", "unknown-solver-empty"):
+    for f in ("numpy-input", "list-of-numpy", "none-input", "string-input", "unknown-sample-dim", "empty-sample-dims", "all-dims-are-sample-dims", "unknown-sample-dim|center=False", "one-unknown-of-two-sample-dims", "one-unknown-of-two-sample-dims|center=False", "one-unknown-of-two-sample-dims|list|center=False", "empty-sample-dims|center=False", "all-dims-are-sample-dims|center=False", "numpy-weights", "n_modes>rank", "n_modes=0", "n_modes=-1", "n_modes=1.5", "n_modes='a'", "n_modes=None", "unknown-solver", "unknown-solver-empty", "n_modes=numpy.int64(2)", "n_modes=numpy.int32(1)", "n_modes=numpy.float64(2.0)"):
         add("h_fit_fault", f"fit|{f}", fault=f)
     for k in ("int<=0", "int>rank", "float>1", "float<=0"):
         add("h_nmodes_symbolic", f"n_modes symbolic|{k}", kind=k)
